@@ -420,3 +420,219 @@ Proof.
   - apply union_doms_gt in Hy; [|exact NE']. pose proof (lmax_ge _ _ Hx). lia.
   - eapply IH; [exact NE'| |exact Hx|exact Hy]. lia.
 Qed.
+
+(* ---- barycentric refinement ------------------------------------------------------------------------------------ *)
+Lemma set_nth_length {A} (l : list A) i a : length (set_nth l i a) = length l.
+Proof. revert i. induction l as [|h r IH]; intros [|i]; cbn; auto. Qed.
+Lemma nth_set_nth_eq {A} (l : list A) i a d : i < length l -> nth i (set_nth l i a) d = a.
+Proof. revert i. induction l as [|h r IH]; intros [|i] H; cbn in *; try lia; auto. apply IH. lia. Qed.
+Lemma nth_set_nth_neq {A} (l : list A) i j a d : i <> j -> nth j (set_nth l i a) d = nth j l d.
+Proof. revert i j. induction l as [|h r IH]; intros [|i] [|j] H; cbn; try lia; auto. Qed.
+
+Lemma vat_prefix (nvs x : list vec) k : k < length nvs -> vat (nvs ++ x) k = vat nvs k.
+Proof. intro H. unfold vat. apply app_nth1. exact H. Qed.
+
+Section Bary.
+Variables (vs : list vec) (es : list edge).
+
+Definition mid_of_edge (i : nat) : vec :=
+  midpoint (vat vs (fst (nth i es (0, 0)))) (vat vs (snd (nth i es (0, 0)))).
+
+Definition BInv (st : bstate) : Prop :=
+  (exists x, fst st = vs ++ x) /\ length (snd st) = length es /\
+  forall i k, nth i (snd st) None = Some k -> k < length (fst st) /\ vat (fst st) k = mid_of_edge i.
+
+Lemma bary_edge_spec st ei st' id : BInv st -> ei < length es -> bary_edge vs es st ei = (st', id) ->
+  BInv st' /\ (exists x, fst st' = fst st ++ x) /\ id < length (fst st') /\ vat (fst st') id = mid_of_edge ei.
+Proof.
+  destruct st as [nvs e2v]. intros ([x Hx] & Hl & Hm) Hei. unfold bary_edge. cbn [fst snd] in *.
+  destruct (nth ei e2v None) as [k|] eqn:E; intro H; inversion H; subst st' id; clear H.
+  - destruct (Hm ei k E) as [A B]. split; [split; [exists x; exact Hx|split; assumption]|].
+    split; [exists []; rewrite app_nil_r; reflexivity|]. split; assumption.
+  - unfold BInv. cbn [fst snd]. fold (mid_of_edge ei). split; [split; [|split]|split; [|split]].
+    + exists (x ++ [mid_of_edge ei]). rewrite Hx, <- app_assoc. reflexivity.
+    + rewrite set_nth_length. exact Hl.
+    + intros i k Hk. destruct (Nat.eq_dec ei i) as [<-|Ne].
+      * rewrite nth_set_nth_eq in Hk by lia. inversion Hk; subst k. rewrite app_length. cbn. split; [lia|].
+        unfold vat. rewrite app_nth2 by lia. rewrite Nat.sub_diag. reflexivity.
+      * rewrite nth_set_nth_neq in Hk by exact Ne. destruct (Hm i k Hk) as [A B].
+        rewrite app_length. split; [lia|]. rewrite vat_prefix by exact A. exact B.
+    + eexists; reflexivity.
+    + rewrite app_length. cbn. lia.
+    + unfold vat. rewrite app_nth2 by lia. rewrite Nat.sub_diag. reflexivity.
+Qed.
+
+(* a block of six children, relative to a vertex list *)
+Definition centroid_of (e : elem) : vec :=
+  vscale (1 # 3)%Q (vadd (vadd (vat vs (vget e 0)) (vat vs (vget e 1))) (vat vs (vget e 2))).
+Definition Good (nvs : list vec) (p : elem * (nat * nat * nat)) (ch : list elem) : Prop :=
+  exists m l0 l1 l2, let e := fst p in let ee := snd p in
+    ch = [(vget e 0, l0, m); (vget e 1, m, l0); (vget e 1, l2, m); (vget e 2, m, l2); (vget e 2, l1, m); (vget e 0, m, l1)] /\
+    m < length nvs /\ l0 < length nvs /\ l1 < length nvs /\ l2 < length nvs /\
+    vat nvs m = centroid_of e /\ vat nvs l0 = mid_of_edge (tget ee 0) /\ vat nvs l1 = mid_of_edge (tget ee 1) /\
+    vat nvs l2 = mid_of_edge (tget ee 2).
+
+Lemma Good_ext nvs x p ch : Good nvs p ch -> Good (nvs ++ x) p ch.
+Proof.
+  intros (m & l0 & l1 & l2 & H). cbn zeta in H. destruct H as (E & A & B & C & D & F & G & I & J).
+  exists m, l0, l1, l2. cbn zeta. rewrite app_length, !vat_prefix by assumption.
+  repeat split; try assumption; lia.
+Qed.
+
+Definition okp (p : elem * (nat * nat * nat)) : Prop := forall l, l < 3 -> tget (snd p) l < length es.
+
+Lemma bary_elem_spec st p st' ch : BInv st -> okp p -> bary_elem vs es st p = (st', ch) ->
+  BInv st' /\ (exists x, fst st' = fst st ++ x) /\ Good (fst st') p ch.
+Proof.
+  destruct p as [e ee], st as [nvs e2v]. intros I Ok. unfold bary_elem.
+  set (c := vscale (1 # 3)%Q (vadd (vadd (vat vs (vget e 0)) (vat vs (vget e 1))) (vat vs (vget e 2)))).
+  assert (I0 : BInv (nvs ++ [c], e2v)).
+  { destruct I as ([x Hx] & Hl & Hm). unfold BInv. cbn [fst snd] in *. split; [exists (x ++ [c]); rewrite Hx, <- app_assoc; reflexivity|].
+    split; [exact Hl|]. intros i k Hk. destruct (Hm i k Hk) as [A B]. rewrite app_length. split; [lia|].
+    rewrite vat_prefix by exact A. exact B. }
+  destruct (bary_edge vs es (nvs ++ [c], e2v) (tget ee 0)) as [s0 l0] eqn:E0.
+  destruct (bary_edge vs es s0 (tget ee 1)) as [s1 l1] eqn:E1.
+  destruct (bary_edge vs es s1 (tget ee 2)) as [s2 l2] eqn:E2.
+  intro H. inversion H; subst st' ch; clear H.
+  destruct (bary_edge_spec _ _ _ _ I0 (Ok 0 ltac:(lia)) E0) as (I1 & [x0 P0] & L0 & V0).
+  destruct (bary_edge_spec _ _ _ _ I1 (Ok 1 ltac:(lia)) E1) as (I2 & [x1 P1] & L1 & V1).
+  destruct (bary_edge_spec _ _ _ _ I2 (Ok 2 ltac:(lia)) E2) as (I3 & [x2 P2] & L2 & V2).
+  cbn [fst snd] in *.
+  split; [exact I3|]. split; [exists ([c] ++ x0 ++ x1 ++ x2); rewrite P2, P1, P0, <- !app_assoc; reflexivity|].
+  exists (length nvs), l0, l1, l2. cbn zeta. cbn [fst snd].
+  assert (Lm : length nvs < length (fst s0)) by (rewrite P0, !app_length; cbn; lia).
+  assert (Vm : vat (fst s0) (length nvs) = c).
+  { rewrite P0. rewrite vat_prefix by (rewrite app_length; cbn; lia). unfold vat. rewrite app_nth2 by lia.
+    rewrite Nat.sub_diag. reflexivity. }
+  assert (Len1 : length (fst s1) = length (fst s0) + length x1) by (rewrite P1, app_length; reflexivity).
+  assert (Len2 : length (fst s2) = length (fst s1) + length x2) by (rewrite P2, app_length; reflexivity).
+  assert (Up1 : forall k, k < length (fst s0) -> vat (fst s1) k = vat (fst s0) k)
+    by (intros; rewrite P1; apply vat_prefix; assumption).
+  assert (Up2 : forall k, k < length (fst s1) -> vat (fst s2) k = vat (fst s1) k)
+    by (intros; rewrite P2; apply vat_prefix; assumption).
+  split; [reflexivity|]. split; [lia|]. split; [lia|]. split; [lia|]. split; [exact L2|].
+  split; [rewrite Up2, Up1 by lia; exact Vm|].
+  split; [rewrite Up2, Up1 by lia; exact V0|]. split; [rewrite Up2 by lia; exact V1|exact V2].
+Qed.
+
+Fixpoint AllGood (nvs : list vec) (l : list (elem * (nat * nat * nat))) (chs : list elem) : Prop :=
+  match l with
+  | [] => chs = []
+  | p :: r => exists ch rest, chs = ch ++ rest /\ Good nvs p ch /\ AllGood nvs r rest
+  end.
+Lemma AllGood_ext nvs x l : forall chs, AllGood nvs l chs -> AllGood (nvs ++ x) l chs.
+Proof.
+  induction l as [|p r IH]; intros chs H; cbn in *; [exact H|].
+  destruct H as (ch & rest & E & G & A). exists ch, rest. split; [exact E|]. split; [apply Good_ext; exact G|apply IH; exact A].
+Qed.
+Lemma Good_length nvs p ch : Good nvs p ch -> length ch = 6.
+Proof. intros (m & l0 & l1 & l2 & H). cbn zeta in H. destruct H as (-> & _). reflexivity. Qed.
+
+Lemma bary_loop_spec : forall l st st' chs, BInv st -> (forall p, In p l -> okp p) ->
+  bary_loop vs es st l = (st', chs) ->
+  BInv st' /\ (exists x, fst st' = fst st ++ x) /\ AllGood (fst st') l chs.
+Proof.
+  induction l as [|p r IH]; intros st st' chs I Ok H; cbn in H.
+  - inversion H; subst. split; [exact I|]. split; [exists []; rewrite app_nil_r; reflexivity|reflexivity].
+  - destruct (bary_elem vs es st p) as [s ch] eqn:E. destruct (bary_loop vs es s r) as [s' chs'] eqn:E'.
+    inversion H; subst st' chs; clear H.
+    destruct (bary_elem_spec _ _ _ _ I (Ok p (or_introl eq_refl)) E) as (I1 & [x P] & G).
+    destruct (IH _ _ _ I1 (fun q Hq => Ok q (or_intror Hq)) E') as (I2 & [x' P'] & A).
+    split; [exact I2|]. split; [exists (x ++ x'); rewrite P', P, app_assoc; reflexivity|].
+    exists ch, chs'. split; [reflexivity|]. split; [rewrite P'; apply Good_ext; exact G|exact A].
+Qed.
+
+Lemma AllGood_nth nvs : forall l chs e, AllGood nvs l chs -> e < length l ->
+  exists ch, Good nvs (nth e l ((0, 0, 0), (0, 0, 0))) ch /\
+             forall k, k < 6 -> nth (6 * e + k) chs (0, 0, 0) = nth k ch (0, 0, 0).
+Proof.
+  induction l as [|p r IH]; intros chs e H He; cbn in He; [lia|]. cbn in H.
+  destruct H as (ch & rest & -> & G & A). pose proof (Good_length _ _ _ G) as L. destruct e as [|e].
+  - exists ch. split; [exact G|]. intros k Hk. rewrite Nat.mul_0_r. cbn [Nat.add]. apply app_nth1. lia.
+  - destruct (IH rest e A ltac:(lia)) as (ch' & G' & N). exists ch'. split; [exact G'|].
+    intros k Hk. rewrite app_nth2 by lia. rewrite L. replace (6 * S e + k - 6) with (6 * e + k) by lia. apply N. exact Hk.
+Qed.
+End Bary.
+
+Lemma nth_repeat_same {A} (a : A) n i : nth i (repeat a n) a = a.
+Proof. revert i. induction n as [|n IH]; intros [|i]; cbn; auto. Qed.
+
+Lemma AllGood_length vs es nvs : forall l chs, AllGood vs es nvs l chs -> length chs = 6 * length l.
+Proof.
+  induction l as [|p r IH]; intros chs H; cbn in H; [subst; reflexivity|].
+  destruct H as (ch & rest & -> & G & A). rewrite app_length, (Good_length _ _ _ _ _ G), (IH _ A). cbn [length]. lia.
+Qed.
+
+Section BaryS.
+Variables (vs : list vec) (els : list elem) (dom : list nat).
+Notation nv := (length vs).
+Notation n := (length els).
+Notation g := (vs, els, dom).
+Hypothesis Hrange : in_range els nv = true.
+Let XB (e k : nat) : vec := vat vs (vget (el els e) k).
+
+Lemma mid_of_edge_local e l : e < n -> l < 3 ->
+  eedge els e l < length (edges els) /\
+  veq (mid_of_edge vs (edges els) (eedge els e l)) (midpoint (XB e (fst (edge_local l))) (XB e (snd (edge_local l)))).
+Proof.
+  intros He Hl. destruct (edges_once els) as (_ & _ & _ & OK & _). destruct (OK e l He Hl) as [Lt Eq].
+  split; [exact Lt|]. unfold mid_of_edge. fold dE. rewrite Eq. unfold vertices_from_edge_index, XB.
+  destruct (sort_values_set (vget (el els e) (fst (edge_local l))) (vget (el els e) (snd (edge_local l)))) as [-> | ->];
+    cbn [fst snd]; [apply veq_refl|apply midpoint_comm].
+Qed.
+
+(* barycentric_refinement: six children per element in the library's order, each with the parent's orientation and
+   a sixth of its area vector; old vertices kept; domain indices inherited.
+   Not proved (correspondence only): the number of vertices is nv + n + number of edges. *)
+Theorem barycentric_correct :
+  let b := barycentric g in
+  length (g_els b) = 6 * n /\ length (g_dom b) = 6 * length dom /\
+  (forall e k, e < length dom -> k < 6 -> nth (6 * e + k) (g_dom b) 0 = nth e dom 0) /\
+  (forall i, i < nv -> vat (g_vs b) i = vat vs i) /\
+  (forall e k, e < n -> k < 6 ->
+     let c := nth (6 * e + k) (g_els b) (0, 0, 0) in
+     let Y := fun i => vat (g_vs b) (vget c i) in
+     vget c 0 < length (g_vs b) /\ vget c 1 < length (g_vs b) /\ vget c 2 < length (g_vs b) /\
+     veq (normal_dir (Y 0) (Y 1) (Y 2)) (vscale (1 # 6)%Q (normal_dir (XB e 0) (XB e 1) (XB e 2)))).
+Proof.
+  cbn zeta. unfold barycentric. cbn [g_vs g_els g_dom fst snd].
+  destruct (bary_loop vs (edges els) (vs, repeat None (length (edges els))) (combine els (element_edges els)))
+    as [[nvs e2v] nels] eqn:E.
+  cbn [g_vs g_els g_dom fst snd].
+  assert (I0 : BInv vs (edges els) (vs, repeat None (length (edges els)))).
+  { split; [exists []; cbn; rewrite app_nil_r; reflexivity|]. split; [cbn; apply repeat_length|].
+    intros i k H. cbn [snd] in H. rewrite nth_repeat_same in H. discriminate. }
+  assert (Ok : forall p, In p (combine els (element_edges els)) -> okp (edges els) p).
+  { intros p Hp. apply (In_nth _ _ ((0, 0, 0), (0, 0, 0))) in Hp as [e [He Hn]].
+    rewrite combine_ee_length in He. rewrite combine_ee_nth in Hn by exact He. subst p. intros l Hl. cbn [snd].
+    destruct (edges_once els) as (_ & _ & _ & OK & _). apply (OK e l He Hl). }
+  destruct (bary_loop_spec vs (edges els) _ _ _ _ I0 Ok E) as (_ & [x Px] & A). cbn [fst] in Px, A.
+  split; [rewrite (AllGood_length _ _ _ _ _ A), combine_ee_length; reflexivity|].
+  split; [apply length_flat_map_const; intro a; apply repeat_length|].
+  split.
+  { intros e k He Hk. rewrite (nth_flat_map_const (fun d => repeat d 6) 6 dom 0 0) by (auto using repeat_length).
+    destruct k as [|[|[|[|[|[|k]]]]]]; try lia; reflexivity. }
+  split; [intros i Hi; rewrite Px; apply vat_prefix; exact Hi|].
+  intros e k He Hk.
+  destruct (AllGood_nth vs (edges els) nvs _ _ e A ltac:(rewrite combine_ee_length; exact He)) as (ch & G & N).
+  rewrite N by exact Hk. rewrite combine_ee_nth in G by exact He.
+  destruct G as (m & l0 & l1 & l2 & G). cbn zeta in G. cbn [fst snd] in G.
+  destruct G as (-> & Lm & L0 & L1 & L2 & Vm & V0 & V1 & V2).
+  assert (R : forall i, i < 3 -> vget (el els e) i < length nvs /\ vat nvs (vget (el els e) i) = XB e i).
+  { intros i Hi. pose proof (in_range_el vs els Hrange e i He Hi) as Ri. rewrite Px, app_length.
+    split; [lia|]. apply vat_prefix. exact Ri. }
+  destruct (R 0 ltac:(lia)) as [R0 O0], (R 1 ltac:(lia)) as [R1 O1], (R 2 ltac:(lia)) as [R2 O2].
+  destruct (mid_of_edge_local e 0 He ltac:(lia)) as [_ M0]. destruct (mid_of_edge_local e 1 He ltac:(lia)) as [_ M1].
+  destruct (mid_of_edge_local e 2 He ltac:(lia)) as [_ M2]. cbn [edge_local fst snd] in M0, M1, M2.
+  unfold eedge in M0, M1, M2. rewrite <- V0 in M0. rewrite <- V1 in M1. rewrite <- V2 in M2.
+  assert (C : veq (vat nvs m) (vscale (1 # 3)%Q (vadd (vadd (XB e 0) (XB e 1)) (XB e 2)))) by (rewrite Vm; apply veq_refl).
+  destruct (bary_children_normals (XB e 0) (XB e 1) (XB e 2)) as (N0 & N1 & N2 & N3 & N4 & N5). cbn zeta in *.
+  destruct k as [|[|[|[|[|[|k]]]]]]; try lia; cbn [nth vget]; (split; [assumption|split; [assumption|split; [assumption|]]]).
+  - eapply veq_trans; [|exact N0]. apply normal_dir_proper; [rewrite O0; apply veq_refl|exact M0|exact C].
+  - eapply veq_trans; [|exact N1]. apply normal_dir_proper; [rewrite O1; apply veq_refl|exact C|exact M0].
+  - eapply veq_trans; [|exact N2]. apply normal_dir_proper; [rewrite O1; apply veq_refl|exact M2|exact C].
+  - eapply veq_trans; [|exact N3]. apply normal_dir_proper; [rewrite O2; apply veq_refl|exact C|exact M2].
+  - eapply veq_trans; [|exact N4]. apply normal_dir_proper; [rewrite O2; apply veq_refl|exact M1|exact C].
+  - eapply veq_trans; [|exact N5]. apply normal_dir_proper; [rewrite O0; apply veq_refl|exact C|exact M1].
+Qed.
+End BaryS.
